@@ -182,7 +182,8 @@ Wide3 == {"€", "ⰱ"}
 Wide4 == {"😀"}
 Wide == Wide2 \cup Wide3 \cup Wide4
 ByteW(c) == IF c \in Wide2 THEN 2 ELSE IF c \in Wide3 THEN 3 ELSE IF c \in Wide4 THEN 4 ELSE 1
-LevelKnown == LowerSet \cup UpperSet \cup PrintableNonLetter \cup Whitespace \cup Wide
+WideExtra == {"ò", "ó", "ô", "õ", "÷"}      \* only inside MixedWide texts (ò ó ô õ letters, ÷ a symbol)
+LevelKnown == LowerSet \cup UpperSet \cup PrintableNonLetter \cup Whitespace \cup Wide \cup WideExtra
 LevelVerdict(t) ==
     IF \E i \in 1..Len(t) : t[i] \notin LevelKnown THEN DontCare
     ELSE LET l == ParseLevel(t) IN IF l = 0 THEN Reject ELSE Accept(l)
@@ -197,7 +198,7 @@ KindVerdict(t) ==
 
 -----------------------------------------------------------------------------
 (* paths: ident (:: ident)*, ident = (XID_Start | _) XID_Continue*  *)
-XidStart == LowerSet \cup UpperSet \cup {"é", "µ", "ñ", "ö", "ø", "ÿ", "º", "ڰ", "ⰱ"}    \* letters
+XidStart == LowerSet \cup UpperSet \cup {"é", "µ", "ñ", "ö", "ø", "ÿ", "º", "ڰ", "ⰱ", "ò", "ó", "ô", "õ"}    \* letters
 IdentStart == XidStart \cup {"_"}
 IdentChar == IdentStart \cup DigitSet
 
